@@ -65,6 +65,8 @@ func run(r *report.Run, cc *sim.ChainCase) *report.Failure {
 	if err != nil {
 		return report.Failf("genesis/load", "%v", err)
 	}
+	// a quarter of the chains are driven through an application-side wrapper around the upgradeable state
+	l.Wrap = cc.Genesis.Eth1Seed%4 == 0
 	ctx := context.Background()
 	tr := &tracker{events: map[string]bool{}, forkPath: []string{"phase0"}}
 	var shadow *sim.Lock // continues from reloaded bytes with a fresh context
@@ -132,6 +134,9 @@ func run(r *report.Run, cc *sim.ChainCase) *report.Failure {
 		}
 		if pre.Fork >= refspec.Altair && post.Fork >= refspec.Altair && fmt.Sprint(pre.NextSyncCommittee.Pubkeys) != fmt.Sprint(post.NextSyncCommittee.Pubkeys) {
 			tr.events["sync-rotation"] = true
+			if l.Wrap {
+				r.Hit("sync-rotation-behind-an-application-wrapper")
+			}
 		}
 	}
 
@@ -351,7 +356,7 @@ func TestCheck(t *testing.T) {
 	if r.Replay != "" {
 		return
 	}
-	r.Mandatory("shared-cache-sibling-bad-pop-of-keys-the-cache-knows", "shared-cache-conflicting-deposit-histories", "shared-cache-sibling-behind-same-history", "shared-cache-same-deposits-reordered", "event:deposit-added-validator", "event:validator-added-mid-epoch", "event:upgrade", "event:sync-rotation", "event:active-set-changes-at-constant-size", "reload-continuation", "fork-sibling-advanced")
+	r.Mandatory("sync-rotation-behind-an-application-wrapper", "shared-cache-sibling-bad-pop-of-keys-the-cache-knows", "shared-cache-conflicting-deposit-histories", "shared-cache-sibling-behind-same-history", "shared-cache-same-deposits-reordered", "event:deposit-added-validator", "event:validator-added-mid-epoch", "event:upgrade", "event:sync-rotation", "event:active-set-changes-at-constant-size", "reload-continuation", "fork-sibling-advanced")
 	n := 2
 	if r.Thorough() {
 		n = 10
